@@ -185,6 +185,43 @@ int main(int argc, char** argv) {
             if (w.dl.hit()) { R.exhaustive = false; break; }
             if (R.samples.size() < 3) R.sampleStr(cls + " (tablebase-backed searches)");
         }
+    } else if (part == "announce") {
+        // Every position of a fixed corpus of legal games (deterministic LCG walks from the initial position: kings get exposed, mating nets and
+        // near-mates abound) in which the side to move has a pawn and a piece is searched to the given depths; EVERY mate announcement up to
+        // maxmate is verified by the independent AND/OR solver. Roots are not pre-selected by the solver: false announcements arise exactly where
+        // no short mate exists (e.g. a defence pruned away near the horizon).
+        int maxMate = (int)w.args.getInt("maxmate", 3);
+        int games = (int)w.args.getInt("games", 200), every = (int)w.args.getInt("every", 3);
+        MateOracle cm = [&](const Position& p, int N) { if (N > maxMate) return -1; return orc::canMateIn(br::fromTexel(p), N) ? 1 : 0; };
+        LossOracle il = [&](const Position& p, int N) { if (N > maxMate) return -1; return orc::isMatedWithin(br::fromTexel(p), N) ? 1 : 0; };
+        std::vector<orc::Board> roots;
+        unsigned long long lcg = 0x9E3779B97F4A7C15ULL; unsigned long long rid = 0;
+        for (int g = 0; g < games; g++) {
+            orc::Board b = orc::startPos();
+            for (int ply = 0; ply < 90; ply++) {
+                std::vector<orc::Mv> lm = orc::legalMoves(b);
+                if (lm.empty() || orc::deadMaterial(b)) break;
+                lcg = lcg * 6364136223846793005ULL + 1442695040888963407ULL;
+                orc::Mv m = lm[(size_t)((lcg >> 33) % lm.size())];
+                // every third move prefers a capture or a check: material comes off and kings come under fire
+                if ((lcg >> 20) % 3 == 0) { std::vector<orc::Mv> sp; for (auto& x : lm) { if (orc::isCapture(b, x)) sp.push_back(x); else { orc::Board a = orc::apply(b, x); if (orc::inCheck(a, a.wtm)) sp.push_back(x); } } if (!sp.empty()) m = sp[(size_t)((lcg >> 40) % sp.size())]; }
+                b = orc::normalised(orc::apply(b, m));
+                if (ply >= 12 && ply % every == 0) {
+                    bool pawn = false, piece = false;
+                    for (int sq = 0; sq < 64; sq++) { int pc = b.sq[sq]; if (!pc || orc::isWhiteP(pc) != b.wtm) continue; int t = orc::typeOf(pc); if (t == 6) pawn = true; else if (t != 1) piece = true; }
+                    if (pawn && piece && !orc::legalMoves(b).empty() && P.mine(rid++)) roots.push_back(b);
+                }
+            }
+        }
+        R.count("corpus_roots", (long long)roots.size());
+        forConfigs([&](sd::Env& env, const std::string& cfg) {
+            for (auto& rb : roots) {
+                Position pos; try { pos = TextIO::readFEN(orc::toFEN(rb)); } catch (const ChessParseError&) { continue; }
+                for (int d : depths) judge(env, pos, d, "announce-" + cfg, cm, il, false);
+                if (w.dl.hit()) { R.exhaustive = false; return; }
+            }
+        });
+        if (R.samples.size() < 3 && !roots.empty()) R.sampleStr(orc::toFEN(roots[0]));
     } else if (part == "solver") {
         // positions of the seed trees with a forced mate found by the independent AND/OR solver
         auto seeds = uni::readSeeds(w.args.get("seeds", "corpus/seeds.fen"));
